@@ -64,19 +64,19 @@ TECHNIQUE = {
     'C01': 'ground table obligations (every row) + SMT-discharged contracts on encoder helpers + bounded round-trip driver',
     'C02': 'ground position lemma executed on every table row + SMT-discharged contracts on Segment.add, ElementFinder._parse_structure (one ordered name per child entry) and ElementList.get_ordered_children (slot k is the by-name index of the k-th ordered name)',
     'C03': 'SMT-discharged contracts on _remove_trailing, ElementList.get_children (insertion-order view) and the recursive group search _get_segment_reference + forwarding pass over the AST + bounded round-trip driver',
-    'C04': 'SMT-discharged contracts on the validator closures + bounded instance/mutation driver',
+    'C04': 'SMT-discharged contracts on the validator closures, the is_unknown definitions, _is_valid and the reporting tail of validate() + bounded instance/mutation driver',
     'C05': 'SMT-discharged admission contract (_can_add_child), datatype constructors and datatype_factory (ValueError only under STRICT, TOLERANT falls back to ST) + forwarding pass + bounded STRICT/TOLERANT drivers',
     'C06': 'SMT-discharged contracts pinning the translation table and escape pattern + class-alphabet enumeration of the real _escape_value (bounded)',
-    'C07': 'SMT-discharged contracts on check_encoding_chars / _split_msh / get_message_info / default resolvers + bounded delimiter driver',
+    'C07': 'SMT-discharged contracts on check_encoding_chars / _split_msh / get_message_info / default resolvers and the Element.encoding_chars getter (parent chain, else the default of the element own version) + bounded delimiter driver',
     'C08': 'contract-based deductive verification of the recursive group search _get_segment_reference (stack discipline, declared chain; loop invariants with loop frames; 60 SMT-discharged obligations) + ground check of the assumed table invariants at every structure node + AST passes + bounded group-finding driver',
     'C09': 'contract-based deductive verification of the ElementList mutators (about 1 100 SMT-discharged obligations from the real AST) + bounded history driver',
     'C10': 'contract-based deductive verification of the attach path (back-pointers, separation invariant) + bounded history driver',
     'C11': 'SMT-discharged frame clauses of the read / traversal paths + bounded history driver',
     'C12': 'SMT-discharged exceptional postconditions (raises => view unchanged, no half-attach) + bounded history driver',
     'C13': 'SMT-discharged contracts on format selection, offset splitting, the *_info helpers, the datatype constructors / to_er7 and datatype_factory + ownership pass + bounded lexical corpus against the HL7 definitions',
-    'C14': 'SMT-discharged contracts on name resolution against the find_child_reference interface + bounded addressing driver',
+    'C14': 'SMT-discharged contracts on name resolution (_find_name, child_at_index, get, remove_by_name) and on the five find_child_reference definitions (upper-cased name, by-name map first, then by-long-name map) + bounded addressing driver',
     'C15': 'SMT-discharged raises clauses (no undeclared exception escapes the header functions) + bounded mutation corpus',
-    'C16': 'SMT-discharged framing contract (to_mllp) and routing key contract (get_message_type) + real server on loopback (bounded); interleavings not explored',
+    'C16': 'contract-based deductive verification of to_mllp (framing), get_message_type (routing key), _route_message (the one reply comes from the handler registered for the message type, or the ERR handler) and handle() (at most one reply written, connection closed on every path) with the socket / handler objects modelled as external + real server on loopback (bounded); interleavings not explored',
     'C17': 'contract-based deductive verification of the default resolvers, Element.__init__ (813 obligations: explicit version / level / reference are the ones stored), get_structure, create_element, datatype_factory + package-wide forwarding pass over every call site + bounded configuration sweep',
     'C18': 'contract-based deductive verification of the reference-threading chain (_parse_structure, get_structure, Element.__init__, create_element: the reference handed in is the structure used; about 1 050 SMT-discharged obligations; the setattr copy loop of _find_structure and the dynamic constructor call assumed) + forwarding pass over the AST + bounded profile driver',
     'C19': 'SMT-discharged frame obligations of the functions under contract on the parse / build / encode / validate / datatype paths (no module-level variable rebound, nothing outside `modifies` written - the sufficient condition for thread independence) + ownership pass over every store / mutating call / global declaration + digest and thread corpus (bounded); schedules themselves are not explored by any layer',
